@@ -450,8 +450,11 @@ decodechar(const char *src, uint_least32_t *chr, bool *hexoct, const char *desc,
 			++s;
 			assert(isxdigit(*s));
 			c = 0;
-			do c = c * 16 + (*s > '9' ? 10 + tolower(*s) - 'a' : *s - '0');
-			while (isxdigit(*++s));
+			do {
+				if (c >> 28)
+					error(loc, "hexadecimal escape sequence in %s is out of range", desc);
+				c = c * 16 + (*s > '9' ? 10 + tolower(*s) - 'a' : *s - '0');
+			} while (isxdigit(*++s));
 			if (hexoct)
 				*hexoct = true;
 			break;
@@ -643,7 +646,9 @@ primaryexpr(struct scope *s)
 	struct type *t;
 	char *src, *end;
 	uint_least32_t chr;
-	int base;
+	long long val;
+	bool hexoct;
+	int base, prefix;
 
 	switch (tok.kind) {
 	case TIDENT:
@@ -669,6 +674,7 @@ primaryexpr(struct scope *s)
 		break;
 	case TCHARCONST:
 		src = tok.lit;
+		prefix = *src;
 		switch (*src) {
 		case 'L': ++src; t = targ->typewchar; break;
 		case 'u': ++src; t = *src == '8' ? ++src, &typeuchar : &typeushort; break;
@@ -677,8 +683,22 @@ primaryexpr(struct scope *s)
 		}
 		assert(*src == '\'');
 		++src;
-		src += decodechar(src, &chr, NULL, "character constant", &tok.loc);
-		e = mkconstexpr(t, chr);
+		hexoct = false;
+		src += decodechar(src, &chr, &hexoct, "character constant", &tok.loc);
+		/* the value must fit a single code unit of the constant's kind (C11 6.4.4.4p9) */
+		if (t == &typeushort ? chr > 0xffff : prefix == '\'' || t == &typeuchar ? hexoct && chr > 0xff : 0)
+			error(&tok.loc, "character constant out of range");
+		if (t == &typeuchar && !hexoct && chr > 0x7f)
+			error(&tok.loc, "UTF-8 character constant is not a single code unit");
+		val = chr;
+		if (prefix == '\'') {
+			/* value of an object of type char converted to int */
+			if (typechar.u.basic.issigned && chr <= 0xff)
+				val = (signed char)chr;
+		} else if (t->u.basic.issigned && t->size == 4) {
+			val = (int_least32_t)chr;
+		}
+		e = mkconstexpr(t, val);
 		if (*src != '\'')
 			error(&tok.loc, "character constant contains more than one character: %c", *src);
 		next();
